@@ -31,8 +31,8 @@ V_ENSURES(!__CPROVER_return_value || __CPROVER_is_fresh(hash->ctx, 1)) /*@C03.ha
 V_ENSURES(!__CPROVER_return_value || (hash->type == hash_type && hash_type != NULL && hash->ctx != NULL)) /*@C03.hash_init.initialised*/
 V_ENSURES(__CPROVER_return_value || zck == NULL || zck->error_state > 0 || hash->ctx == NULL) /*@C03.hash_init.failure*/
 V_ENSURES(__CPROVER_return_value || hash->ctx == NULL) /*@C03.hash_init.no_ctx_on_failure*/
-V_ENSURES(!__CPROVER_return_value || zck == NULL || zck->error_state == V_OLD(zck->error_state)) /*@C12.hash_init.success_keeps_error_state*/
-V_ENSURES(hash != g_hu_hash || (g_hu_total == 0 && g_hu_seen == 0 && g_hu_final == V_OLD(g_hu_final) && g_hu_inits == V_OLD(g_hu_inits) + 1)) /*@C06,C09.hash_init.restarts_stream*/
+V_ENSURES(!__CPROVER_return_value || zck == NULL || zck->error_state == V_OLD(zck->error_state)) /*@C12.hash_init.success_leaves_error_state_alone*/
+V_ENSURES(hash != g_hu_hash || hash_type == NULL || (g_hu_total == 0 && g_hu_seen == 0 && g_hu_final == V_OLD(g_hu_final) && g_hu_inits == V_OLD(g_hu_inits) + 1)) /*@C06,C09.hash_init.restarts_stream*/
 V_ENSURES(hash == g_hu_hash || (g_hu_total == V_OLD(g_hu_total) && g_hu_seen == V_OLD(g_hu_seen) && g_hu_ptr == V_OLD(g_hu_ptr) && g_hu_final == V_OLD(g_hu_final) && g_hu_inits == V_OLD(g_hu_inits))) /*@C06.hash_init.other_hash_untouched*/
 ;
 
@@ -43,7 +43,7 @@ V_REQUIRES(message == NULL || size == 0 || __CPROVER_r_ok(message, size))      /
 V_ASSIGNS(g_hu_total, g_hu_seen, g_hu_ptr; zck != NULL: zck->error_state)
 V_ENSURES(!__CPROVER_return_value || (message == NULL && size == 0) || (hash != NULL && hash->ctx != NULL && hash->type != NULL)) /*@C03.hash_update.needs_initialised_hash*/
 V_ENSURES(__CPROVER_return_value || zck == NULL || zck->error_state > 0) /*@C12.hash_update.failure_sets_error*/
-V_ENSURES(!__CPROVER_return_value || zck == NULL || zck->error_state == V_OLD(zck->error_state)) /*@C12.hash_update.success_keeps_error_state*/
+V_ENSURES(!__CPROVER_return_value || zck == NULL || zck->error_state == V_OLD(zck->error_state)) /*@C12.hash_update.success_leaves_error_state_alone*/
 #define HU_HIT(h, n) ((h) == g_hu_hash && g_hu_k >= V_OLD(g_hu_total) && g_hu_k - V_OLD(g_hu_total) < (n))
 V_ENSURES(!__CPROVER_return_value || hash != g_hu_hash || message == NULL || g_hu_total == V_OLD(g_hu_total) + size) /*@C06,C09.hash_update.stream_grows_by_size*/
 V_ENSURES(!__CPROVER_return_value || message == NULL || !HU_HIT(hash, size) || (g_hu_seen == V_OLD(g_hu_seen) + 1 && g_hu_ptr == message + (g_hu_k - V_OLD(g_hu_total)))) /*@C06,C09.hash_update.records_fed_byte*/
@@ -51,6 +51,8 @@ V_ENSURES((__CPROVER_return_value && message != NULL && HU_HIT(hash, size)) || (
 V_ENSURES((__CPROVER_return_value && hash == g_hu_hash && message != NULL) || g_hu_total == V_OLD(g_hu_total)) /*@C06.hash_update.total_unchanged_elsewhere*/
 ;
 
+/* NOTE (CBMC): is_fresh must be reached on every path on which the result is not NULL, otherwise the
+ * result keeps an unknown value set and every later dereference is case-split over all objects */
 /* g_k1: solver-chosen digest byte; g_fin_val records that byte of the digest returned for the
  * watched hash so that callers' verdicts can be tied to the comparison they make. */
 char *hash_finalize(zckCtx *zck, zckHash *hash)
@@ -58,9 +60,8 @@ V_REQUIRES(zck == NULL || __CPROVER_rw_ok(zck, sizeof(*zck)))
 V_REQUIRES(HASH_OBJ_WF(hash))
 V_ASSIGNS(hash->type, hash->ctx, g_hu_final, g_fin_val, g_fin_total, g_fin_seen, g_fin_ptr; zck != NULL: zck->error_state)
 V_FREES(hash->ctx)
-V_ENSURES(hash->ctx == NULL && hash->type == NULL) /*@C03.hash_finalize.closes_hash*/
-/* NOTE (CBMC): is_fresh must be reached on every path on which the result is not NULL, otherwise the
- * result keeps an unknown value set and every later dereference is case-split over all objects */
+V_ENSURES(__CPROVER_return_value == NULL || (hash->ctx == NULL && hash->type == NULL)) /*@C03.hash_finalize.result_implies_hash_closed*/
+V_ENSURES(__CPROVER_return_value != NULL || (hash->ctx == NULL && hash->type == NULL) || (hash->ctx == V_OLD(hash->ctx) && hash->type == V_OLD(hash->type))) /*@C03.hash_finalize.failure_closes_hash_or_leaves_it_untouched_out_of_memory*/
 V_ENSURES(__CPROVER_return_value == NULL || __CPROVER_is_fresh(__CPROVER_return_value, SPEC_ALLOC_DIGEST(HASH_TYPE_OLD(hash)))) /*@C03.hash_finalize.digest_buffer_size*/
 V_ENSURES(__CPROVER_return_value == NULL || (V_OLD(hash->type) != NULL && V_OLD(hash->ctx) != NULL && SPEC_HASH_VALID(HASH_TYPE_OLD(hash)))) /*@C03.hash_finalize.needs_initialised_hash*/
 V_ENSURES(__CPROVER_return_value != NULL || zck == NULL || zck->error_state > 0 || V_OLD(hash->ctx) != NULL) /*@C03.hash_finalize.failure*/
@@ -100,6 +101,9 @@ V_ENSURES(__CPROVER_return_value == 1 || V_OLD(zck->error_state) > 0 || zck->err
 int validate_chunk(zckChunk *idx, zck_log_type bad_checksum)
 V_REQUIRES(CHUNK_WF(idx))
 V_REQUIRES(CHUNK_HASH_WF(idx->zck))
+/* C09 call-site guard (spec/ghost.h, present only with -DVERIF_SCAN_GUARD: units/scan.c): the validity scan asks for the verdict with the descriptor just
+ * behind the chunk's last stored byte and exactly comp_length bytes fed to the running chunk hash since its initialisation */
+V_REQUIRES_SCAN((g_fpos[G_IX(idx->zck->fd)] == (g_off_t)idx->zck->data_offset + (g_off_t)idx->start + (g_off_t)idx->comp_length && idx->zck->check_chunk_hash.ctx != NULL && (g_hu_hash != &idx->zck->check_chunk_hash || g_hu_total == idx->comp_length)))
 V_ASSIGNS(idx->valid, idx->zck->check_chunk_hash.type, idx->zck->check_chunk_hash.ctx, idx->zck->error_state, g_hu_final, g_fin_val, g_fin_total, g_fin_seen, g_fin_ptr)
 V_FREES(idx->zck->check_chunk_hash.ctx)
 V_ENSURES(__CPROVER_return_value == 1 || __CPROVER_return_value == 0 || __CPROVER_return_value == -1) /*@C02.validate_chunk.ret*/
@@ -108,10 +112,11 @@ V_ENSURES(__CPROVER_return_value != 1 || V_OLD(idx->zck->error_state) == 0) /*@C
 V_ENSURES(__CPROVER_return_value != 1 || &idx->zck->check_chunk_hash != g_hu_hash || (g_hu_final == V_OLD(g_hu_final) + 1 && g_fin_total == V_OLD(g_hu_total) && g_fin_seen == V_OLD(g_hu_seen) && g_fin_ptr == V_OLD(g_hu_ptr))) /*@C02,C15,C09.validate_chunk.verdict_is_over_everything_fed_since_init*/
 V_ENSURES(__CPROVER_return_value != 1 || &idx->zck->check_chunk_hash != g_hu_hash || idx->comp_length == 0 || !(g_k1 < (size_t)idx->digest_size) || g_fin_val == idx->digest[g_k1]) /*@C02,C15,C09,C08,C05.validate_chunk.valid_only_if_every_digest_byte_equal*/
 V_ENSURES(__CPROVER_return_value != 1 || idx->comp_length != 0 || !(g_k1 < (size_t)idx->digest_size) || idx->digest[g_k1] == 0) /*@C02,C09.validate_chunk.empty_chunk_needs_zero_digest*/
-V_ENSURES((V_OLD(idx->zck->error_state) > 0 && idx->zck->check_chunk_hash.ctx == V_OLD(idx->zck->check_chunk_hash.ctx) && idx->zck->check_chunk_hash.type == V_OLD(idx->zck->check_chunk_hash.type)) || (idx->zck->check_chunk_hash.ctx == NULL && idx->zck->check_chunk_hash.type == NULL)) /*@C03.validate_chunk.hash_closed_or_untouched*/
+V_ENSURES(((V_OLD(idx->zck->error_state) > 0 || __CPROVER_return_value == 0) && idx->zck->check_chunk_hash.ctx == V_OLD(idx->zck->check_chunk_hash.ctx) && idx->zck->check_chunk_hash.type == V_OLD(idx->zck->check_chunk_hash.type)) || (idx->zck->check_chunk_hash.ctx == NULL && idx->zck->check_chunk_hash.type == NULL)) /*@C03.validate_chunk.hash_closed_or_untouched*/
 V_ENSURES(__CPROVER_return_value != 0 || idx->zck->error_state > 0) /*@C12.validate_chunk.error_sets_error_state*/
 V_ENSURES(__CPROVER_return_value != 1 || idx->zck->error_state == 0) /*@C12.validate_chunk.valid_verdict_leaves_no_error*/
 V_ENSURES(&idx->zck->check_chunk_hash == g_hu_hash || (g_hu_final == V_OLD(g_hu_final) && g_fin_val == V_OLD(g_fin_val) && g_fin_total == V_OLD(g_fin_total) && g_fin_seen == V_OLD(g_fin_seen) && g_fin_ptr == V_OLD(g_fin_ptr))) /*@C02.validate_chunk.other_hash_untouched*/
+V_ENSURES(__CPROVER_return_value == 0 || idx->zck->error_state == V_OLD(idx->zck->error_state)) /*@C12.validate_chunk.verdict_keeps_state*/
 ;
 
 int validate_current_chunk(zckCtx *zck)
@@ -124,7 +129,7 @@ V_ENSURES(__CPROVER_return_value == 1 || __CPROVER_return_value == 0 || __CPROVE
 V_ENSURES(__CPROVER_return_value != 1 || (V_OLD(zck->error_state) == 0 && zck->error_state == 0 && zck->comp.data_idx->valid == 1)) /*@C02,C15.validate_current_chunk.one_means_chunk_marked_valid*/
 V_ENSURES(&zck->check_chunk_hash == g_hu_hash || (g_hu_final == V_OLD(g_hu_final) && g_fin_val == V_OLD(g_fin_val) && g_fin_total == V_OLD(g_fin_total) && g_fin_seen == V_OLD(g_fin_seen) && g_fin_ptr == V_OLD(g_fin_ptr))) /*@C02.validate_current_chunk.other_hash_untouched*/
 V_ENSURES(__CPROVER_return_value != 1 || &zck->check_chunk_hash != g_hu_hash || (g_hu_final == V_OLD(g_hu_final) + 1 && g_fin_total == V_OLD(g_hu_total) && g_fin_seen == V_OLD(g_hu_seen))) /*@C02,C15.validate_current_chunk.verdict_is_over_everything_fed_since_init*/
-V_ENSURES((V_OLD(zck->error_state) > 0 && zck->check_chunk_hash.ctx == V_OLD(zck->check_chunk_hash.ctx) && zck->check_chunk_hash.type == V_OLD(zck->check_chunk_hash.type)) || (zck->check_chunk_hash.ctx == NULL && zck->check_chunk_hash.type == NULL)) /*@C03.validate_current_chunk.hash_closed_or_untouched*/
+V_ENSURES(((V_OLD(zck->error_state) > 0 || __CPROVER_return_value == 0) && zck->check_chunk_hash.ctx == V_OLD(zck->check_chunk_hash.ctx) && zck->check_chunk_hash.type == V_OLD(zck->check_chunk_hash.type)) || (zck->check_chunk_hash.ctx == NULL && zck->check_chunk_hash.type == NULL)) /*@C03.validate_current_chunk.hash_closed_or_untouched*/
 V_ENSURES(__CPROVER_return_value != 1 || &zck->check_chunk_hash != g_hu_hash || zck->comp.data_idx->comp_length == 0 || !(g_k1 < (size_t)zck->comp.data_idx->digest_size) || g_fin_val == zck->comp.data_idx->digest[g_k1]) /*@C02,C15.validate_current_chunk.valid_only_if_every_digest_byte_equal*/
 ;
 
@@ -135,11 +140,17 @@ V_REQUIRES(__CPROVER_rw_ok(zck, sizeof(*zck)))
 V_REQUIRES(HASH_OBJ_WF(&zck->check_full_hash) && (zck->check_full_hash.type == NULL || zck->check_full_hash.type == &zck->hash_type))
 V_REQUIRES(SPEC_HASH_VALID(zck->hash_type.type) && zck->hash_type.digest_size == SPEC_DIGEST_SIZE(zck->hash_type.type))
 V_REQUIRES(zck->has_uncompressed_source != 0 || (zck->full_hash_digest != NULL && __CPROVER_r_ok(zck->full_hash_digest, zck->hash_type.digest_size)))
+/* C09 call-site guard (-DVERIF_SCAN_GUARD): the scan asks for the data verdict with the whole data section (g_scan_total bytes) read and hashed */
+V_REQUIRES_SCAN(zck->has_uncompressed_source != 0 || (g_fpos[G_IX(zck->fd)] == (g_off_t)zck->data_offset + (g_off_t)g_scan_total && zck->check_full_hash.ctx != NULL && (g_hu_hash != &zck->check_full_hash || g_hu_total == g_scan_total)))
 V_ASSIGNS(zck->check_full_hash.type, zck->check_full_hash.ctx, zck->error_state, g_hu_final, g_fin_val, g_fin_total, g_fin_seen, g_fin_ptr)
 V_FREES(zck->check_full_hash.ctx)
 V_ENSURES(__CPROVER_return_value == 1 || __CPROVER_return_value == 0 || __CPROVER_return_value == -1) /*@C02.validate_file.ret*/
 V_ENSURES(__CPROVER_return_value != 1 || zck->has_uncompressed_source != 0 || &zck->check_full_hash != g_hu_hash || (g_hu_final == V_OLD(g_hu_final) + 1 && g_fin_total == V_OLD(g_hu_total) && g_fin_seen == V_OLD(g_hu_seen))) /*@C02,C09.validate_file.verdict_is_over_everything_fed_since_init*/
 V_ENSURES(__CPROVER_return_value != 1 || zck->has_uncompressed_source != 0 || &zck->check_full_hash != g_hu_hash || !(g_k1 < (size_t)zck->hash_type.digest_size) || (zck->full_hash_digest != NULL && g_fin_val == zck->full_hash_digest[g_k1])) /*@C02,C09.validate_file.valid_only_if_every_digest_byte_equal*/
 V_ENSURES(__CPROVER_return_value != 0 || zck->error_state > 0) /*@C12.validate_file.error_sets_error_state*/
+V_ENSURES(__CPROVER_return_value != -1 || zck->has_uncompressed_source != 0 || &zck->check_full_hash != g_hu_hash || g_hu_final == V_OLD(g_hu_final) + 1) /*@C09.validate_file.mismatch_is_a_verdict_over_a_finalised_digest*/
+V_ENSURES(__CPROVER_return_value == 0 || zck->error_state == V_OLD(zck->error_state)) /*@C12.validate_file.verdict_keeps_state*/
+V_ENSURES(__CPROVER_return_value == 0 || V_OLD(zck->error_state) == 0) /*@C12.validate_file.no_verdict_on_a_context_in_error*/
+V_ENSURES(zck->has_uncompressed_source == 0 || (zck->check_full_hash.ctx == V_OLD(zck->check_full_hash.ctx) && zck->check_full_hash.type == V_OLD(zck->check_full_hash.type))) /*@C09.validate_file.uncompressed_source_leaves_the_hash_alone*/
 ;
 #endif
